@@ -11,7 +11,7 @@ def build(chk):
     imaging.zoom_obligations(chk)
     imaging.azimuthal_obligations(chk)
     chk.bounded_native("encircled energy: curve starts at 0, never decreases, <= 1, diameter where the curve crosses the fraction", "encircled", "non-negative images of even size 8..64, default centre and 4 explicit centres (corner, pixel centre, off-grid), fractions 0.02..0.8", "aotools/image_processing/psf.py:encircled_energy")
-    chk.bounded_native("binning by other factors and total flux", "bin", "n in {1..6, 8}, image sizes up to 48", "aotools/interpolation.py:binImgs")
+    chk.bounded_native("native bridge for the block-sum clause proved for every n over the reals: total flux and block sums under IEEE / dtype semantics", "bin", "n in {1..6, 8}, image sizes up to 48", "aotools/interpolation.py:binImgs")
     chk.bounded_native("spline zoom: polynomial exactness and numerical node pass-through", "zoom", "orders 1,3,5, sizes 4..12 -> up to 45", "aotools/interpolation.py:zoom,zoom_rbs")
     chk.math_lemmas.append("RectBivariateSpline(s=0) interpolates its nodes and reproduces polynomials of degree <= k (SciPy contract, assumed)")
     chk.notes.append("zoom / zoom_rbs: square n x n input and one target size for both axes (the property quantifies over square arrays)")
